@@ -131,6 +131,46 @@ func runC04(r *Run) {
 		}
 	}
 	r.Expect("C04.3", 2, "position persisters")
+	// the shipped mirror store records the position it is given. The kernel only logs a failed
+	// write and carries on, so a refused write silently leaves the persisted position behind (a
+	// restart then re-opens a committed height). A refusal is therefore tolerated only for a write
+	// that really moves a position backwards: new height below the stored one, or equal height and
+	// lower round (lexicographic; `>=` in place of `==` refuses every height committed in a lower
+	// round than the one before).
+	if fn := w.Fn("tmmemstore.MirrorStore.SetNetworkHeightRound"); fn != nil {
+		a := w.A(fn)
+		pairs := [][4]string{{"p2", "p0.votingHeight", "p3", "p0.votingRound"}, {"p4", "p0.committingHeight", "p5", "p0.committingRound"}}
+		n, okAll := 0, true
+		for _, ret := range a.Returns() {
+			if a.sh.Of(ret.Results[0]).String() == "nil" {
+				continue
+			}
+			n++
+			justified := false
+			for _, pr := range pairs {
+				lowerH, _ := a.IfEdges("("+pr[0]+" < "+pr[1]+")", true, nil)
+				sameH, _ := a.IfEdges("("+pr[0]+" == "+pr[1]+")", true, nil)
+				lowerR, _ := a.IfEdges("("+pr[2]+" < "+pr[3]+")", true, nil)
+				// every path to the refusal: lower height, or (same height and lower round)
+				if (len(lowerH) > 0 || (len(sameH) > 0 && len(lowerR) > 0)) && a.EveryPathTakes(ret, lowerH, sameH) && a.EveryPathTakes(ret, lowerH, lowerR) {
+					justified = true
+				}
+			}
+			if !justified {
+				okAll = false
+			}
+		}
+		stores := map[string]bool{}
+		a.Instrs(func(in ssa.Instruction) {
+			if st, ok := in.(*ssa.Store); ok {
+				stores[a.sh.Of(st.Addr).String()+"<-"+a.sh.Of(st.Val).String()] = true
+			}
+		})
+		wired := stores["p0.votingHeight<-p2"] && stores["p0.votingRound<-p3"] && stores["p0.committingHeight<-p4"] && stores["p0.committingRound<-p5"]
+		r.Check(okAll && wired, "C04.3", "tmmemstore.MirrorStore.SetNetworkHeightRound(records)", w.Pos(fn.Pos()), fmt.Sprintf("stores the four values given; %d refusing return(s), each only for a position that really moves backwards", n))
+	} else {
+		r.Fail("C04.3", "tmmemstore.MirrorStore.SetNetworkHeightRound", "", "not found")
+	}
 
 	// ---- C04.4
 	if fn := w.Fn("tmi.kState.FindView"); fn != nil {
@@ -301,10 +341,18 @@ func runC07(r *Run) {
 		}
 		a := w.AU(fn)
 		for i, c := range a.CallsTo("tmi.Kernel.loadInitialView") {
-			vs := a.sh.Of(CallArg(c, 4))
-			alts := []*Shape{vs}
-			if vs.K == "phi" {
-				alts = vs.A
+			// the validator set handed to the loader, wherever it sits in the call
+			sets := argsOfType(a, c, "tmconsensus.ValidatorSet")
+			var alts []*Shape
+			for _, vs := range sets {
+				if vs.K == "phi" {
+					alts = append(alts, vs.A...)
+				} else {
+					alts = append(alts, vs)
+				}
+			}
+			if len(alts) == 0 {
+				alts = []*Shape{atom("unk", "no validator set argument")}
 			}
 			ok := true
 			var bad []string
@@ -420,7 +468,34 @@ func runC07(r *Run) {
 			return false
 		}
 		ok := has("CurValSet", " - 2))#2") && has("PrevValSet", " - 3))#2") && has("PrevFinNextValSet", " - 1))#2")
-		r.Check(ok, "C07.3", "tmstate.StateMachine.sendInitialActionSet(heights)", w.Pos(fn.Pos()), fmt.Sprintf("start-up sets: cur from h-2, prev from h-3, next from h-1: %v", truncate(fmt.Sprint(got), 400)))
+		// ... h being the height that is entered (the H of the round entrance sent to the mirror), not
+		// the stored one: after a stop between saving a finalization and advancing, they differ by one
+		var entered *Shape
+		for _, sd := range a.Sends() {
+			if b, m := Match("lit:tmeil.StateMachineRoundEntrance{H:$h,$...}", a.sh.Of(sd.Val)); m {
+				entered = b["$h"]
+			}
+		}
+		if entered == nil {
+			ok = false
+		} else {
+			a.Instrs(func(in ssa.Instruction) {
+				st, isSt := in.(*ssa.Store)
+				if !isSt {
+					return
+				}
+				lf := lastField(st.Addr)
+				if lf != "tsi.RoundLifecycle.CurValSet" && lf != "tsi.RoundLifecycle.PrevValSet" && lf != "tsi.RoundLifecycle.PrevFinNextValSet" {
+					return
+				}
+				if b, m := Match("@@tmstore.FinalizationStore.LoadFinalizationByHeight($s,$c,($m - $k))#2", a.sh.Of(st.Val)); m {
+					if b["$m"].String() != entered.String() {
+						ok = false
+					}
+				}
+			})
+		}
+		r.Check(ok, "C07.3", "tmstate.StateMachine.sendInitialActionSet(heights)", w.Pos(fn.Pos()), fmt.Sprintf("start-up sets: cur from h-2, prev from h-3, next from h-1, h = the height entered: %v", truncate(fmt.Sprint(got), 400)))
 	}
 	r.Expect("C07.3", 6, "state machine validator set writers")
 
